@@ -221,6 +221,15 @@ func value(v interface{}, depth int) any {
 		hidden := []any{}
 		for i := 0; i < rv.NumField(); i++ {
 			f := rv.Type().Field(i)
+			if f.Anonymous && rv.Field(i).Kind() == reflect.Struct {
+				// an embedded struct: its exported fields are promoted
+				if sub, ok := value(rv.Field(i).Interface(), depth+1).([]any); ok && len(sub) == 3 {
+					for k, v := range sub[1].(map[string]any) {
+						m[k] = v
+					}
+				}
+				continue
+			}
 			if f.IsExported() {
 				m[f.Name] = value(rv.Field(i).Interface(), depth+1)
 			} else {
